@@ -25,15 +25,35 @@ class FoldMixin:
         funcs, kind, pk, ret = self.fold_funcs(name)
         d = ops.coerce(d, kind) if d.kind != kind else d
         ps = [self.coerce_to(st, p, k).z for p, k in zip(params, pk)]
+        self.fold_nonneg(name, d)
         return SVal(ret, [F(*(list(d.t) + ps)) for F in funcs])
+
+    def fold_nonneg(self, name, d):
+        """Lemma instance for a `nonneg` fold: the sum over this dict value is >= 0 for all parameters."""
+        if not self.reg.folds[name].get('nonneg'):
+            return
+        funcs, kind, pk, ret = self.fold_funcs(name)
+        cache = self.recfuncs.setdefault('$fold_nonneg', {})
+        key = (name,) + tuple(t.get_id() for t in d.t)
+        if key not in cache:
+            self._keep = getattr(self, '_keep', []) + list(d.t)
+            pv = [z3.Const(fresh_name('fp'), k.sorts()[0]) for k in pk]
+            axs = []
+            for F, s_ in zip(funcs, ret.sorts()):
+                app = F(*(list(d.t) + pv))
+                body = app >= (z3.RealVal(0) if s_ == R else z3.IntVal(0))
+                axs.append(z3.ForAll(pv, body, patterns=[app]) if pv else body)
+            cache[key] = axs
+        # the same formula objects on every path that reaches this dict value (deduplicated by id when solving)
+        self.ax_buffer.extend(cache[key])
 
     def folds_for(self, kind):
         return [n for n, f in self.reg.folds.items() if self.reg.kind(f['over']) == kind]
 
-    def fold_term(self, st, fr, name, val, pvals):
+    def fold_term(self, st, fr, name, val, pvals, key=None):
         f = self.reg.folds[name]
         lam = self.ev1(self.parse_spec(f['term']), st, self.fold_frame(fr))
-        r = self.call_lambda(st, self.fold_frame(fr), lam, [val] + pvals)[0][1]
+        r = self.call_lambda(st, self.fold_frame(fr), lam, ([key] if f.get('keyed') else []) + [val] + pvals)[0][1]
         ret = self.reg.kind(f['ret'])
         return self.coerce_to(st, r, ret)
 
@@ -63,9 +83,10 @@ class FoldMixin:
             pv = [z3.Const(fresh_name('fp'), k.sorts()[0]) for k in pk]
             pvals = [SVal(k, [v]) for k, v in zip(pk, pv)]
             b = self.push_binder(pv) if pv else None
+            kv = key if isinstance(key, SVal) else lift(key, old.kind.key)
             try:
-                t_old = self.fold_term(st, fr, name, oldv, pvals)
-                t_new = self.fold_term(st, fr, name, newval, pvals) if newval is not None else None
+                t_old = self.fold_term(st, fr, name, oldv, pvals, kv)
+                t_new = self.fold_term(st, fr, name, newval, pvals, kv) if newval is not None else None
             finally:
                 if b is not None:
                     self.pop_binder(b)
@@ -73,4 +94,8 @@ class FoldMixin:
                 zero = z3.RealVal(0) if ret.sorts()[i] == R else z3.IntVal(0)
                 rhs = F(*(list(old.t) + pv)) - z3.If(was, t_old.t[i], zero) + (t_new.t[i] if t_new is not None else zero)
                 body = F(*(list(new.t) + pv)) == rhs
-                self.ax_buffer.append(z3.ForAll(pv, body, patterns=[F(*(list(new.t) + pv))]) if pv else body)
+                # either term triggers the equation (a hypothesis may mention only the fold of the old dict)
+                self.ax_buffer.append(z3.ForAll(pv, body, patterns=[F(*(list(new.t) + pv)), F(*(list(old.t) + pv))])
+                                      if pv else body)
+            self.fold_nonneg(name, old)
+            self.fold_nonneg(name, new)
